@@ -7,6 +7,10 @@
    new index column (the column names of the source as strings) is supplied by
    the harness and the value columns (strings) are dropped: only name
    resolution is observed on a transposed table.
+   DReindex is not a derivation but an update of the same object through the
+   deletion of the index column and its re-creation (assignment of a column
+   under the index name); the assignment invalidates the cache because its key
+   is the index name, whichever branch of __setitem__ stores the value.
    Definitions only; proofs are in proofs/TableDerive.v. *)
 From Coq Require Import List Bool Arith ZArith NArith Lia.
 From XD Require Import lib.ListAux model.Table model.TableSel.
@@ -22,7 +26,10 @@ Inductive dop :=
 | DRows (ix : idx)              (* t = t.rows[...] *)
 | DCols (keep : list N)         (* t = t.cols[[...]]  (existing integer columns) *)
 | DConcat (l : list idx)        (* t = Table.concatenate([t] + [t.rows[i] for i in l]) *)
-| DT (labels : list N).         (* t = t._t ; labels = the column names of t, as row names *)
+| DT (labels : list N)          (* t = t._t ; labels = the column names of t, as row names *)
+| DReindex (vals : list N).     (* the index column is deleted (del t[index] / t.pop(index)) and a column
+                                   with the index name is assigned again (item or attribute style): same
+                                   table object, new index column, no lookup in between *)
 
 Fixpoint drep {A} (k : nat) (l : list A) : list A :=
   match k with O => [] | S j => l ++ drep j l end.
@@ -72,6 +79,7 @@ Definition dstep (t : table) (d : dop) : table * result :=
       | None => (t, RErr IndexError)
       end
   | DT labels => (fresh labels [], RUnit)
+  | DReindex vals => (mkTable vals (t_cols t) None, RUnit)
   end.
 
 Fixpoint drun (t : table) (ops : list dop) : list result :=
